@@ -446,6 +446,57 @@ func runWholeSession(c *Ctx, idx int) error {
 	return nil
 }
 
+// runEntropyFaultSession: the property quantifies over all randomness, and the entropy source is
+// a caller-supplied option (env.Config.Rand): a source that fails ONCE, at the k-th read, and
+// works afterwards.  The garbler may abort (nothing to leak); if the session completes, the offset
+// it garbled with is the block it drew for R — or the zero label with the S bit set when exactly
+// that read failed (ot.NewLabel returns the zero label on error) — and the transcript is scanned
+// with it as usual.
+func runEntropyFaultSession(c *Ctx, idx int) error {
+	r := c.rng.Fork()
+	circ := GenCircuit(r, GenOpts{MinIn: 4, MaxIn: 10, MinGates: 8, MaxGates: 40, MaxOut: 6, Overwrite: true, TwoParty: true})
+	n0 := int(circ.Inputs[0].Type.Bits)
+	n1 := int(circ.Inputs[1].Type.Bits)
+	x := make([]bool, n0)
+	y := make([]bool, n1)
+	for k := range x {
+		x[k] = true // garbler bits 1: the label sent in the clear is L1 = L0 ^ R
+	}
+	for k := range y {
+		y[k] = r.Bool()
+	}
+	// reads of a session: 1 = session key, 2 = R, 3.. = one per input wire
+	ks := []int{1, 2, 3, 4, 2 + n0, 3 + n0, 2 + n0 + n1}
+	k := ks[idx%len(ks)]
+	grand := &blockLog{r: r.Fork(), skipKey: true, failAt: k}
+	kind := otKinds[0]
+	res := runSession(circ, bitsToBig(x), bitsToBig(y), grand, kind.mk(r.Fork()), kind.mk(r.Fork()), 0, r.Fork(), nil, 20*time.Second)
+	c.Hist("mode:whole-session:entropy-source-fails-once")
+	c.Eval(fmt.Sprintf("entropy|%d|%s|%s", k, circuitText(circ), bitsString(y)), true)
+	if !grand.failed {
+		c.Note("entropy-fault session %d: the source was read fewer than %d times", idx, k)
+		return nil
+	}
+	if res.gErr != nil || res.stalled {
+		c.Hist("entropy-fault:garbler-aborted")
+		return nil
+	}
+	c.Hist("entropy-fault:garbler-completed")
+	var R ot.Label
+	if k != 2 && len(grand.blocks) > 0 {
+		R = grand.blocks[0]
+	}
+	R = setS(R)
+	self, pairs := scanR(res.g2e, R)
+	if len(self) > 0 || len(pairs) > 0 {
+		c.Fail("c04:whole-circuit:entropy-failure:transcript-leaks-R",
+			fmt.Sprintf("the entropy source (env.Config.Rand) failed once, at read %d of the session (1 = key, 2 = R, 3.. = input labels); the garbler completed the session and its garbler->evaluator transcript contains the offset R or two 16-byte values differing by R", k),
+			c04Replay{Seed: c.Seed, Mode: "whole-session:entropy-fault", Case: idx, R: R.String(), Offsets: pairs, Self: self,
+				Detail: circuitText(circ), Inputs: bitsString(x) + "/" + bitsString(y)})
+	}
+	return nil
+}
+
 // ---- full streaming sessions through the compiler
 var c04Programs = []string{
 	"package main\nfunc main(a, b uint8) uint8 {\n\tc := b + 1\n\treturn (a & b) ^ (a & c)\n}\n",
@@ -492,6 +543,11 @@ func runStreamSession(c *Ctx, idx int) error {
 	gConn := p2p.NewConn(ga)
 	eConn := p2p.NewConn(ea)
 	grand := &blockLog{r: r.Fork(), skipKey: true}
+	if idx%6 == 5 {
+		// the configured entropy source fails once: at the read of R (1) or of an input label
+		grand.failAt = 1 + (idx/6)%3
+		c.Hist("mode:stream-session:entropy-source-fails-once")
+	}
 	params := utils.NewParams()
 	defer params.Close()
 	params.Config = &env.Config{Rand: grand}
@@ -534,6 +590,11 @@ func runStreamSession(c *Ctx, idx int) error {
 		select {
 		case go_ = <-gch:
 			got++
+			if go_.err != nil && grand.failed {
+				// the garbler aborted on the failing entropy source: release the evaluator
+				ga.Close()
+				ea.Close()
+			}
 		case eo = <-ech:
 			got++
 		case <-timeout:
@@ -545,6 +606,10 @@ func runStreamSession(c *Ctx, idx int) error {
 	}
 	ga.Close()
 	ea.Close()
+	if grand.failed && (go_.err != nil || eo.err != nil) {
+		c.Hist("entropy-fault:garbler-aborted")
+		return nil
+	}
 	if go_.err != nil || eo.err != nil {
 		c.Fail("c04:stream-session:error", fmt.Sprintf("streaming session failed: %v / %v", go_.err, eo.err), src)
 		return nil
@@ -552,6 +617,10 @@ func runStreamSession(c *Ctx, idx int) error {
 	g2e.mu.Lock()
 	data := append([]byte(nil), g2e.log...)
 	g2e.mu.Unlock()
+	if grand.failed && grand.failAt == 1 {
+		// the read of R failed and the session completed: ot.NewLabel returned the zero label
+		grand.blocks = append([]ot.Label{{}}, grand.blocks...)
+	}
 	if len(grand.blocks) == 0 {
 		c.Fail("c04:stream-session:no-R", "could not observe R (no 16-byte read from the configured random source)", src)
 		return nil
@@ -588,6 +657,11 @@ func runC04(c *Ctx) error {
 	}
 	for i := 0; i < c.N(24, 300); i++ {
 		if err := runWholeSession(c, i); err != nil {
+			return err
+		}
+	}
+	for i := 0; i < c.N(7, 70); i++ {
+		if err := runEntropyFaultSession(c, i); err != nil {
 			return err
 		}
 	}
